@@ -247,7 +247,7 @@ theorem rename_step_core {d : Disk} (inv : Inv d) {p q : Bytes} (a : RootArg p)
       have hbit4' : ((renEntry e q).getD 11 0 / 16) % 2 = 0 := by rw [q3, b4]; exact hbit4
       have hshown' : shown (renEntry e q) := ⟨⟨n6, q1⟩, n7, by omega, hbit3', n8⟩
       have hgood' : NameGood (renEntry e q) :=
-        ⟨trimEnd B, trimEnd X, n1, n2, n4, n5, fun hd => by rw [hbit4'] at hd; cases hd⟩
+        ⟨trimEnd B, trimEnd X, n1, n2, n4, n5, (fun hd => by rw [hbit4'] at hd; cases hd), (fresh_noSlash np).1, (fresh_noSlash np).2⟩
       have hpath' : entPath [] (renEntry e q) = absPath q := by
         unfold entPath
         simp only [List.isEmpty_nil, if_true]
